@@ -139,6 +139,14 @@ theorem gen_ctxSaveRestore_eq : NV.Gen.C11.ctxSaveRestore = [1, 1] := rfl
 /-- **heart_beats()** answers the list in reverse order -/
 theorem gen_heartBeatsReversed_eq : NV.Gen.C11.heartBeatsReversed = true := rfl
 
+/-- **backend()**: the recovery point is set in front of the loop; the loop resets eval_cost, removes destructed objects
+    (and swaps replaced programs) and then calls call_heart_beat when the flag is set - the sequence the harness command
+    `tick` reproduces -/
+theorem gen_backendOrder_eq : NV.Gen.C11.backendOrder = [3, 0, 1, 2] := rfl
+
+/-- **heartbeat_timer_callback** sets heart_beat_flag to 1 -/
+theorem gen_timerSetsFlag_eq (f : Int) : NV.Gen.C11.timerSetsFlag f = 1 := rfl
+
 theorem timerFlagHeartbeat_val : NV.Gen.C11.timerFlagHeartbeat = 2 := rfl
 
 /-- the guard of the round: `(MAIN_OPTION (timer_flags) & TIMER_FLAG_HEARTBEAT) && (num_hb_to_do > 0)` (after
